@@ -12,6 +12,7 @@ import (
 	"sort"
 	"strings"
 	"testing"
+	"time"
 
 	"mosn.io/api"
 	"mosn.io/pkg/buffer"
@@ -45,6 +46,13 @@ func allocBound(n int) uint64 { return uint64(32*n + 256<<10) }
 // definition not arrived, nothing may be allocated for them (64 KiB covers pooled scratch objects).
 func needMoreBound(n int) uint64 { return uint64(n + 64<<10) }
 
+// cpuBound bounds the CPU time one call may burn on n input bytes (a decode normally costs
+// microseconds, a 1 MiB frame about a millisecond): work must be proportional to what has arrived,
+// not to an announced count.
+func cpuBound(n int) time.Duration { return 250*time.Millisecond + time.Duration(n)*time.Microsecond }
+
+const sigTarsMapCount = "tars/decode-iterates-announced-map-count"
+
 type failure struct{ sig, msg string }
 
 func (f *failure) raise(t ev.TB, part string) {
@@ -59,7 +67,8 @@ type result struct {
 	frames  int
 	calls   int
 	alloc   uint64
-	allocNM uint64 // allocation of the call that answered need-more
+	allocNM uint64        // allocation of the call that answered need-more
+	cpu     time.Duration // largest CPU time of one call
 	fail    *failure
 	detail  string
 	errText string
@@ -149,7 +158,11 @@ func decodeOnce(c *decodeCase, input []byte) (res result) {
 			var err error
 			ctx := codec.NewCtx()
 			buf.Calls = 0
+			t0 := codec.CPUTime()
 			a := codec.AllocBytes(func() { cmd, err = proto.Decode(ctx, buf) })
+			if d := codec.CPUTime() - t0; d > res.cpu {
+				res.cpu = d
+			}
 			res.alloc += a
 			res.calls++
 			after := raw.Len()
@@ -198,7 +211,12 @@ func decodeOnce(c *decodeCase, input []byte) (res result) {
 		if r, ok := pn.(codec.Runaway); ok {
 			res.fail = &failure{sigp + "decode-does-not-terminate", fmt.Sprintf("Decode call %d: %v", res.calls+1, r)}
 		} else {
-			res.fail = &failure{sigp + "decode-panics:" + codec.PanicSite(st), fmt.Sprintf("Decode call %d panicked: %v\n%s", res.calls+1, pn, st)}
+			site := codec.PanicSite(st)
+			if c.Proto == "dubbo" && strings.HasPrefix(site, "github.com/apache/dubbo-go-hessian2") && strings.Contains(st, "dubbo.getServiceAwareMeta") {
+				// one root cause whatever the place inside the hessian library: the panic is not recovered
+				site = "hessian2-panic-escapes-getServiceAwareMeta"
+			}
+			res.fail = &failure{sigp + "decode-panics:" + site, fmt.Sprintf("Decode call %d panicked: %v\n%s", res.calls+1, pn, st)}
 		}
 	}
 	return
@@ -225,6 +243,25 @@ func checkDecode(c *decodeCase, input []byte) result {
 			return res
 		}
 	}
+	if bound := cpuBound(len(input)); res.cpu > bound {
+		min := res.cpu
+		for i := 0; i < 2 && min > bound; i++ {
+			r2 := decodeOnce(c, input)
+			if r2.fail == nil && r2.cpu < min {
+				min = r2.cpu
+			}
+		}
+		if min > bound {
+			sig := c.Proto + "/decode-call-burns-cpu"
+			why := ""
+			if n := tarsAnnouncedEntries(input); c.Proto == "tars" && n > 0 {
+				sig = sigTarsMapCount
+				why = fmt.Sprintf("; the packet announces a map of %d entries that its bytes cannot hold", n)
+			}
+			res.fail = &failure{sig, fmt.Sprintf("%d bytes of input (outcome %s, %s): one Decode call used %v of CPU (three measurements, minimum), bound %v%s", len(input), res.first, res.errText, min, bound, why)}
+			return res
+		}
+	}
 	if bound := needMoreBound(len(input)); res.allocNM > bound {
 		min := res.allocNM
 		for i := 0; i < 2 && min > bound; i++ {
@@ -240,6 +277,20 @@ func checkDecode(c *decodeCase, input []byte) result {
 		}
 	}
 	return res
+}
+
+// knownSlowShape recognises, while the finding is listed, tars packets announcing >= 2^22 map entries
+// without the bytes for them: TarsGo iterates the announced count (up to 2^31-1 iterations, a minute
+// of CPU), which would trip the watchdog and end the shard.
+func knownSlowShape(proto string, in []byte, keepSome bool) bool {
+	if proto != "tars" || !codec.Listed(sigTarsMapCount) {
+		return false
+	}
+	n := tarsAnnouncedEntries(in)
+	if keepSome && n <= 1<<24 {
+		return false // a few moderately slow ones keep reproducing the finding (about a second each)
+	}
+	return n >= 1<<22
 }
 
 // magicOK is the non-triviality rule: the input passes the protocol's magic / first-field check.
@@ -336,6 +387,9 @@ func mutate(rt *rapid.T, f *codec.Frame, depth int) (out []byte, class, desc str
 	if f.Proto == "bolt" || f.Proto == "boltv2" {
 		kinds = append(kinds, "dangling-header-bytes")
 	}
+	if f.Proto == "tars" {
+		kinds = append(kinds, "tars-count", "tars-count")
+	}
 	if depth == 0 {
 		kinds = append(kinds, "two-mutations")
 	}
@@ -407,6 +461,18 @@ func mutate(rt *rapid.T, f *codec.Frame, depth int) (out []byte, class, desc str
 		j := rapid.IntRange(0, len(g)).Draw(rt, "spliceFrom")
 		b = append(b[:i:i], g[j:]...)
 		desc = fmt.Sprintf("first %d bytes + another frame from offset %d", i, j)
+	case "tars-count":
+		// the announced entry count of a map / byte length of sBuffer, re-encoded as a 4-byte integer
+		_, counts := tarsWalk(b)
+		if len(counts) == 0 {
+			return b, "valid", "none"
+		}
+		ct := counts[rapid.IntRange(0, len(counts)-1).Draw(rt, "count")]
+		vals := []uint32{0, 1, uint32(ct.Val + 1), 255, 65535, 1 << 20, 1 << 24, 1<<31 - 1}
+		v := vals[rapid.IntRange(0, len(vals)-1).Draw(rt, "value")]
+		b = tarsSetCount(b, ct, v)
+		class += ":" + ct.Kind
+		desc = fmt.Sprintf("%s count at %d: %d -> %d", ct.Kind, ct.Head, ct.Val, v)
 	case "dangling-header-bytes":
 		// the header block announced d bytes longer than its key/value pairs, d bytes present
 		fs := lengthFields(f)
@@ -462,6 +528,12 @@ func TestPropCorrupt(t *testing.T) {
 					trailing = "frame"
 				}
 				c := &decodeCase{Part: partCorrupt, Proto: p, Input: hex.EncodeToString(in), Mutation: desc + "; trailing " + trailing}
+				if knownSlowShape(p, in, rapid.IntRange(0, 7).Draw(rt, "keepKnownSlowShape") == 0) {
+					// excluded by construction: the call would spin for minutes and take the shard with it
+					ev.Case(partCorrupt, false, nil, nil, "proto:"+p, "excluded-known-slow-shape")
+					ev.Extra(partCorrupt, "inputs_not_run_because_they_have_the_shape_of_"+sigTarsMapCount, 1)
+					return
+				}
 				res := checkDecode(c, in)
 				ev.Case(partCorrupt, magicOK(p, in), append([]byte(p+"|"), in...), func() interface{} {
 					return map[string]interface{}{"proto": p, "mutation": c.Mutation, "len": len(in), "head": ev.Short(head(in, 48)), "outcome": res.first, "frames": res.frames, "alloc": res.alloc}
